@@ -252,7 +252,7 @@ def run(ctx: Ctx):
             ctx.count("export_" + ("ok" if want.startswith("ok") else want.split(":")[1]))
     # e2e
     jobs, ecases = [], []
-    nsc = ctx.n(5, 40)
+    nsc = ctx.n(5, 150)
     for s in range(nsc):
         spec = rich.random_spec(rng)
         if s == 0:
